@@ -84,10 +84,9 @@ theorem diagM_orthonormal (m : M6 ℝ) (d : Eig12 ℝ) (h : diagM m = .ok d) : O
 theorem rotVec_keeps_orthonormal (i : Nat) (c s : ℝ) (h : c * c + s * s = 1) {d : Eig12 ℝ}
     (ho : Orthonormal d) : Orthonormal (rotVec i c s d) := rotVec_orthonormal i c s h ho
 
-/-- over ℝ the search for a small sub-diagonal entry never runs off the end (`e[2] = 0` … more precisely:
-    a run that returns REF_SUCCESS never went through the `ub` branch, by definition of `rowStep`) and
-    the only error statuses of `diagM` on (finite) real input are `failure` (30 sweeps) and `ub` -/
-theorem diagM_error_kinds (m : M6 ℝ) (e : Err) (h : diagM m = .error e) : e = .failure ∨ e = .ub := by
+/-- the only error status of `diagM` on (finite) real input is `failure`: 30 sweeps without convergence, or (the branch
+    added by the repair of the out-of-bounds store) a small-sub-diagonal search that runs off the end -/
+theorem diagM_error_kinds (m : M6 ℝ) (e : Err) (h : diagM m = .error e) : e = .failure := by
   have hloop : ∀ (fuel l mm : Nat) (st : QL ℝ) (e : Err), qlLoop fuel l mm st = .error e → e = .failure := by
     intro fuel l mm
     induction fuel with
@@ -98,19 +97,18 @@ theorem diagM_error_kinds (m : M6 ℝ) (e : Err) (h : diagM m = .error e) : e = 
       dsimp only at h
       split_ifs at h
       exact ih _ _ h
-  have hrow : ∀ l (st : QL ℝ) (e : Err), rowStep l st = .error e → e = .failure ∨ e = .ub := by
+  have hrow : ∀ l (st : QL ℝ) (e : Err), rowStep l st = .error e → e = .failure := by
     intro l st e h
     unfold rowStep at h
     dsimp only at h
     generalize (if Scalar.lt st.tst1 _ = true then _ else st : QL ℝ) = st1 at h
     split_ifs at h
-    · injection h with h; right; exact h.symm
+    · injection h with h; exact h.symm
     · split at h
       · exact absurd h (by simp)
       · rename_i e' hq
         injection h with h
         subst h
-        left
         exact hloop _ _ _ _ _ hq
   unfold diagM at h
   simp only [M6.allFinite, isFinite_eq, Bool.and_self, Bool.not_true, Bool.false_eq_true, if_false] at h
